@@ -368,6 +368,80 @@ def run(idx: ProgramIndex, rep: Report, tier: str, selftest: bool = True):
         else:
             rep.bad("C08.E", Finding(PROP, "C08.E", F, f"no raise on {what}", f"linear_cg: {msg}", cg0.loc()))
 
+    # ---------------------------------------------------------------- N
+    # The Lanczos matrix of an n x n system has at most n rows: the dimension of the tridiagonal buffer allocated before the loop
+    # must be bounded by the row count of the right-hand side on every path (a necessary condition of "true Lanczos matrices":
+    # row n+1 of a larger buffer is filled from a breakdown step and adds a spurious Ritz value).  Three-valued: the rule
+    # reports only a definite derivation from quantities that are not bounded by n (parameters, settings, constants); a shape
+    # it does not recognise is recorded as undecided, never reported.
+    rep.rule("C08.N", "the dimension of the tridiagonal buffer is bounded by the number of rows on every path", floor=0)
+    pre_walk = [x for s in R.pre for x in ast.walk(s)]
+    fn_params = set(cg.params())
+
+    def _rowcount(e: ast.AST) -> bool:
+        if isinstance(e, ast.Call) and isinstance(e.func, ast.Attribute) and e.func.attr == "size" and len(e.args) == 1:
+            a = e.args[0]
+            return isinstance(a, ast.UnaryOp) and isinstance(a.op, ast.USub) and isinstance(a.operand, ast.Constant) \
+                and a.operand.value in (1, 2) or (isinstance(a, ast.Constant) and a.value in (-1, -2))
+        if isinstance(e, ast.Subscript) and isinstance(e.value, ast.Attribute) and e.value.attr == "shape":
+            return norm(e.slice) in ("-2", "-1")
+        return False
+
+    def _bnd(e: ast.AST, seen: Tuple[str, ...] = ()) -> str:
+        if _rowcount(e):
+            return "yes"
+        if isinstance(e, ast.Constant):
+            return "yes" if e.value == 0 else "no" if isinstance(e.value, int) else "unknown"
+        if isinstance(e, ast.IfExp):
+            parts = [_bnd(e.body, seen), _bnd(e.orelse, seen)]
+            return "no" if "no" in parts else "yes" if parts == ["yes", "yes"] else "unknown"
+        if isinstance(e, ast.Call) and isinstance(e.func, ast.Name) and e.func.id in ("min", "max") and e.args and not e.keywords \
+                and not any(isinstance(a, ast.Starred) for a in e.args):
+            parts = [_bnd(a, seen) for a in e.args]
+            if e.func.id == "min" and len(e.args) >= 2:
+                return "yes" if "yes" in parts else "no" if set(parts) == {"no"} else "unknown"
+            if e.func.id == "max" and len(e.args) >= 2:
+                return "no" if "no" in parts else "yes" if set(parts) == {"yes"} else "unknown"
+            return "unknown"
+        if isinstance(e, ast.Call) and (dotted(e.func) or "").startswith("settings.") and (dotted(e.func) or "").endswith(".value"):
+            return "no"
+        if isinstance(e, ast.Name):
+            if e.id in seen:
+                return "unknown"
+            defs = [x.value for x in pre_walk if isinstance(x, ast.Assign) and len(x.targets) == 1
+                    and isinstance(x.targets[0], ast.Name) and x.targets[0].id == e.id]
+            other = [x for x in pre_walk if isinstance(x, (ast.AugAssign, ast.AnnAssign, ast.NamedExpr, ast.For, ast.With))
+                     and any(isinstance(t, ast.Name) and t.id == e.id and isinstance(t.ctx, ast.Store) for t in ast.walk(x))]
+            tuple_defs = [x for x in pre_walk if isinstance(x, ast.Assign) and not (len(x.targets) == 1 and isinstance(x.targets[0], ast.Name))
+                          and any(isinstance(t, ast.Name) and t.id == e.id and isinstance(t.ctx, ast.Store)
+                                  for tg in x.targets for t in ast.walk(tg))]
+            if other or tuple_defs:
+                return "unknown"
+            if not defs:
+                return "no" if e.id in fn_params else "unknown"
+            if e.id in fn_params:
+                defs = defs + [None]  # the value passed by the caller may survive
+            parts = ["no" if d is None else _bnd(d, seen + (e.id,)) for d in defs]
+            return "no" if "no" in parts else "yes" if set(parts) == {"yes"} else "unknown"
+        return "unknown"
+
+    bufs = [x for x in pre_walk if isinstance(x, ast.Call) and (dotted(x.func) or "").split(".")[-1] in ("zeros", "empty", "new_zeros", "new_empty")
+            and len(x.args) >= 3 and norm(x.args[0]) == norm(x.args[1]) and not isinstance(x.args[0], (ast.Constant, ast.Starred))]
+    for b in bufs:
+        verdict = _bnd(b.args[0])
+        if verdict == "yes":
+            rep.ok("C08.N", {"buffer": short(b, 60), "dimension": norm(b.args[0]), "bounded_by_row_count": True})
+        elif verdict == "no":
+            rep.bad("C08.N", Finding(PROP, "C08.N", F, "tridiagonal dimension not bounded by the row count",
+                                     f"linear_cg: the dimension `{norm(b.args[0])}` of the tridiagonal buffer `{short(b, 50)}` is, on some "
+                                     "path, derived only from parameters / settings / constants and not capped by the number of rows of "
+                                     "the system: for a system smaller than that limit the returned Lanczos matrix has more rows than "
+                                     "the operator (a spurious Ritz value)", cg0.loc()))
+        else:
+            rep.analysed.setdefault("C08.N_undecided", []).append(short(b, 80))
+    if not bufs:
+        rep.analysed.setdefault("C08.N_undecided", []).append("no square buffer allocated before the loop was recognised")
+
     # ---------------------------------------------------------------- X
     rep.rule("C08.X", "the early exit is controlled by tolerance and residual norm", floor=2)
     breaks = [n for n in cfg.stmt_nodes() if n.kind == "stmt" and isinstance(n.ast, ast.Break) and _inside(loop_ast, n.ast)]
